@@ -139,3 +139,87 @@ func excerpt(b []byte, at int) string {
 	}
 	return string(b[lo:hi])
 }
+
+// Size-limited memory store slice: with a total size limit configured, a message is either
+// refused or stored complete - never silently cut down to what fits.
+func runMaxKB(c *fw.Ctx, idx int, r *fw.Rand) {
+	maxkb := []int{8, 64, 256}[idx%3]
+	conf := sut.DefaultConf()
+	conf.SMTP.MaxMessageBytes = 64 << 20
+	conf.Storage.Params = map[string]string{"maxkb": fmt.Sprint(maxkb)}
+	env, err := sut.NewEnv(conf, "mem")
+	if err != nil {
+		panic(err)
+	}
+	ss := env.StartSMTP()
+	defer ss.Close()
+	if _, err := ss.Greet(); err != nil {
+		if sut.IsWatchdog(err) {
+			c.Hang("smtp-session-idle", err.Error(), "")
+		}
+		return
+	}
+	if _, err := ss.Cmd("EHLO maxkb.test"); err != nil {
+		return
+	}
+	limit := maxkb * 1024
+	for k, f := range []int{50, 95, 99, 101, 110, 200, 30} {
+		size := limit * f / 100
+		if f == 99 || f == 101 {
+			size = limit + (f - 100) // within a byte or so of the limit, headers make it exceed
+		}
+		box := fmt.Sprintf("mk%d-%d", idx, k)
+		var b bytes.Buffer
+		b.WriteString("Subject: " + box + "\r\nFrom: a@b.test\r\n\r\n")
+		line := strings.Repeat(box+"~", 6) + "\r\n"
+		for b.Len() < size {
+			b.WriteString(line)
+		}
+		data := b.Bytes()
+		for _, l := range []string{"MAIL FROM:<s@sender.test>", "RCPT TO:<" + box + "@alpha.test>", "DATA"} {
+			if _, err := ss.Cmd(l); err != nil {
+				if sut.IsWatchdog(err) {
+					c.Hang("smtp-session-idle", err.Error(), "")
+				}
+				return
+			}
+		}
+		st := sut.DotStuff(data)
+		rep, err := ss.Cmd(string(st[:len(st)-2]))
+		if err != nil {
+			if sut.IsWatchdog(err) {
+				c.Hang("smtp-session-idle", err.Error(), "")
+			}
+			return
+		}
+		ms, gerr := env.Store.GetMessages(box)
+		if gerr != nil {
+			c.Violation("C02:store-unreadable", gerr.Error(), nil)
+			return
+		}
+		if rep.Code != 250 {
+			c.Count("maxkb_refused", 1)
+			if len(ms) != 0 {
+				c.Violation("C02:refused-but-stored", fmt.Sprintf("maxkb=%d: %d-byte message answered %s but mailbox %q holds %d messages", maxkb, len(data), rep.String(), box, len(ms)), nil)
+				return
+			}
+			if _, err := ss.Cmd("RSET"); err != nil {
+				return
+			}
+			continue
+		}
+		c.Count("maxkb_accepted", 1)
+		if len(ms) == 0 {
+			// accepted, then legitimately evicted again by later traffic? Not here: it is the newest message.
+			c.Violation("C02:accepted-but-not-stored", fmt.Sprintf("maxkb=%d: %d-byte message acknowledged 250, mailbox %q is empty", maxkb, len(data), box), nil)
+			return
+		}
+		sn := sut.SnapMsg(ms[len(ms)-1], true)
+		if !bytes.HasSuffix(normC([]byte(sn.Source)), normC(data)) || sn.Size != int64(len(sn.Source)) {
+			c.Violation("C02:store-content", fmt.Sprintf("maxkb=%d: acknowledged %d-byte message is stored as %d bytes (Size() %d) and does not end with the transmitted data", maxkb, len(data), len(sn.Source), sn.Size), nil)
+			return
+		}
+	}
+	c.Count("maxkb_sessions", 1)
+	c.NonTrivial(fmt.Sprintf("maxkb|%d", maxkb))
+}
